@@ -24,6 +24,7 @@ func init() {
 func instrsOf[T ssa.Instruction](xs []T) []ssa.Instruction { return eng.AsInstrs(xs) }
 
 func runC02(c *eng.Ctx, thorough bool) {
+	c02Routes(c)
 	unauthFalse := map[string]bool{`^unauth$`: false}
 	unauthTrue := map[string]bool{`^unauth$`: true}
 
